@@ -58,7 +58,7 @@ func cacheAccepts() []gate.Gate {
 		gate.Cmp("K.expires", `call:(http.Header).Get(param:e.ResponseHeaders,const:"Expires")`, token.NEQ, `const:""`),
 		ccHas("K.max-age", "max-age", true),
 		ccHas("K.s-maxage", "s-maxage", true),
-		gate.Cmp("K.status-cacheable", "alloc:[*]int[_]", token.EQL, "param:e.ResponseStatus"),
+		gate.Cmp("K.status-cacheable", "alloc:[*]int[call:sort.SearchInts(alloc:[*]int,param:e.ResponseStatus)]", token.EQL, "param:e.ResponseStatus"),
 		ccHas("K.public", "public", true),
 	}
 }
